@@ -114,7 +114,8 @@ pub fn gen_pure(seed: u64, thorough: bool, out: &Sink) {
         let vis = if small { r.below(30) } else { r.next() >> r.below(64) };
         let hid = if kind < 5 { r.below(4) } else if small { r.below(200) } else { (r.next() >> r.below(64)).min(U64MAX - vis) };
         let thr = if r.chance(1, 2) { r.below(6) } else { r.below(40) };
-        let amt = match r.below(4) { 0 => None, 1 => Some(0), 2 => Some(r.below(100)), _ => Some(r.next() >> r.below(64)) };
+        // 80 is the crate's DEFAULT_RESERVE_REPLENISH_AMOUNT: `Some(80)` and `None` replenish alike and must stay distinct
+        let amt = match r.below(5) { 0 => None, 1 => Some(0), 2 => Some(r.below(100)), 3 => Some(*r.pick(&[80u64, 79, 81, 1])), _ => Some(r.next() >> r.below(64)) };
         let q = match r.below(5) { 0 => vis, 1 => vis.saturating_sub(1), 2 => r.below(40), 3 => vis.saturating_add(r.below(5)), _ => r.next() >> r.below(64) };
         let side = if r.chance(1, 2) { Side::Buy } else { Side::Sell };
         let tif = *r.pick(&[TimeInForce::Gtc, TimeInForce::Ioc, TimeInForce::Fok, TimeInForce::Day, TimeInForce::Gtd(12345)]);
@@ -162,7 +163,7 @@ pub fn random_order(r: &mut Rng, id: OrderId, price: u64, zero_ok: bool, big: bo
     // quantity behind a small display takes hidden/display loop iterations (E-pure covers big hidden)
     let hid = if r.chance(1, 5) { 0 } else if r.chance(1, 6) { r.range(50, 250) } else { r.below(25) };
     let thr = if r.chance(1, 3) { 0 } else { r.below(8) };
-    let amt = match r.below(6) { 0 | 1 => None, 2 => Some(0), 3 => Some(1), _ => Some(r.below(30)) };
+    let amt = match r.below(7) { 0 | 1 => None, 2 => Some(0), 3 => Some(1), 4 => Some(80), _ => Some(r.below(30)) };
     let auto = r.chance(2, 3);
     let side = if r.chance(1, 2) { Side::Buy } else { Side::Sell };
     // timestamps: small, 0 ("unstamped"), and - one in ten - ahead of any wall clock (a caller's clock skew,
@@ -243,7 +244,8 @@ pub fn gen_seq(seed: u64, ncases: u64, maxlen: u64, zero_ok: bool, rebuilds: boo
             let live: Vec<OrderId> = lvl.iter_orders().iter().map(|o| o.id()).collect();
             if rebuilds && r.chance(1, 12) {
                 let kind = *r.pick(&["snapshot", "from", "package", "json", "data", "serde", "text", "lying-snapshot", "lying-data",
-                    "lying-from", "lying-package", "lying-json", "lying-serde", "lying-text"]);
+                    "lying-from", "lying-package", "lying-json", "lying-serde", "lying-text", "serde-value", "serde-reader",
+                    "json-escaped", "serde-escaped", "lying-count-ok"]);
                 out.push(format!("rebuild {kind}"));
                 out.push("state".to_string());
                 // the generator's private level is rebuilt the same way so that liveness and the
@@ -326,6 +328,32 @@ pub fn gen_seq(seed: u64, ncases: u64, maxlen: u64, zero_ok: bool, rebuilds: boo
 /// E-seq for the exported OrderQueue (C19): push / pop / find / remove / len / is_empty / to_vec,
 /// ids pushed once or re-pushed after removal; queues built from lists. The generator drives a
 /// private copy of the real queue only to learn which ids are queued.
+/// One match call that needs tens of thousands of refresh / replenish rounds of one maker: an iceberg (or an
+/// auto-replenishing reserve) displaying 1-2 units over a hidden quantity of 66 000 - 90 000 tranches, a plain
+/// order behind it, one sweep for all of it plus a little, then a draining match. (Quadratic in the model
+/// driver, so one case per run; thorough: both kinds.)
+pub fn gen_deep(seed: u64, thorough: bool, out: &Sink) {
+    let mut r = Rng::new(seed ^ 0x4445_4550);
+    let kinds: Vec<u8> = if thorough { vec![5, 6] } else { vec![if seed % 2 == 0 { 5 } else { 6 }] };
+    for (case, kind) in kinds.into_iter().enumerate() {
+        let price = 100u64;
+        let vis = r.range(1, 3);
+        let tranches = r.range(66_000, 90_000);
+        let hid = tranches * vis - r.below(vis);
+        let deep = mk_order(kind, pool_id(1), price, vis, hid, r.below(vis + 1), Some(vis), true, Side::Sell, 1, TimeInForce::Gtc);
+        let behind = mk_order(0, pool_id(2), price, r.range(1, 9), 0, 0, None, false, Side::Sell, 2, TimeInForce::Gtc);
+        out.push(format!("case {case}"));
+        out.push(format!("new {price}"));
+        out.push(format!("add {}", show_order(&deep)));
+        out.push(format!("add {}", show_order(&behind)));
+        out.push("state".to_string());
+        out.push(format!("match {} {}", vis + hid + behind.visible_quantity() + r.below(3), show_id(&pool_id(900))));
+        out.push("state".to_string());
+        out.push(format!("match {} {}", 1u64 << 40, show_id(&pool_id(999))));
+        out.push("state".to_string());
+    }
+}
+
 pub fn gen_queue(seed: u64, ncases: u64, maxlen: u64, out: &Sink) {
     use std::sync::Arc;
     let mut r0 = Rng::new(seed ^ 0x5155_4555);
@@ -381,6 +409,7 @@ pub fn gen_queue(seed: u64, ncases: u64, maxlen: u64, out: &Sink) {
                 }
                 80..=86 => out.push("q.len".to_string()),
                 87..=92 => out.push("q.isempty".to_string()),
+                93..=96 => out.push(format!("q.rt {}", r.pick(&["vec", "from", "text", "json", "json-value", "json-reader", "json-escaped"]))),
                 _ => out.push("q.tovec".to_string()),
             }
         }
@@ -412,6 +441,11 @@ pub fn gen_conc(seed: u64, ncases: u64, scheds_per_prog: u64, out: &Sink) {
             let o = mk_order(kind, id, price, vis, hid, thr, amt, r.chance(2, 3), if r.chance(1, 2) { Side::Buy } else { Side::Sell }, r.range(1, 9), TimeInForce::Gtc);
             pre.push(o);
         }
+        // one program in four starts on an aged level: a long sequential history of adds and cancels before
+        // the threads start (housekeeping that only runs after much churn); one in four has a resting
+        // iceberg/reserve order amended to display 0 beforehand (the order a match sets aside)
+        let aged = if r.chance(1, 4) { r.range(34, 80) } else { 0 };
+        let zeroed = if r.chance(1, 4) { Some(pool_id(1 + r.below(npre))) } else { None };
         let nthreads = r.range(2, 4);
         let mut fresh = 10u64;
         let mut progs: Vec<Vec<String>> = Vec::new();
@@ -443,6 +477,14 @@ pub fn gen_conc(seed: u64, ncases: u64, scheds_per_prog: u64, out: &Sink) {
             out.push(format!("new {price}"));
             for o in &pre {
                 out.push(format!("add {}", show_order(o)));
+            }
+            for j in 0..aged {
+                let o = mk_order(0, pool_id(2000 + j), price, 1 + j % 7, 0, 0, None, false, Side::Sell, 1 + j % 9, TimeInForce::Gtc);
+                out.push(format!("add {}", show_order(&o)));
+                out.push(format!("upd cancel {}", show_id(&pool_id(2000 + j))));
+            }
+            if let Some(z) = &zeroed {
+                out.push(format!("upd qty {} 0", show_id(z)));
             }
             for (k, p) in progs.iter().enumerate() {
                 out.push(format!("conc.thread {} {}", k, p.join(";")));
